@@ -85,6 +85,7 @@ class Ctx:
         self.counters: dict[str, int] = {}
         self.sets: dict[str, set] = {}
         self.violations: list[dict] = []        # {"mechanism", "message", "replay"}
+        self.n_violations = 0
         self.known_hits: dict[str, int] = {}
         self.inconclusive: list[str] = []
         self._replays_written: dict[str, int] = {}
@@ -134,8 +135,10 @@ class Ctx:
             replay = d / f"{case_hash(body)}.json"
             replay.write_text(json.dumps(body, indent=1))
             self._replays_written[mechanism] = n + 1
-        self.violations.append({"mechanism": mechanism, "message": message[:2000],
-                                "replay": str(replay) if replay else None})
+        self.n_violations += 1
+        if replay is not None or len(self.violations) < 50:
+            self.violations.append({"mechanism": mechanism, "message": message[:2000],
+                                    "replay": str(replay) if replay else None})
 
     def mark_inconclusive(self, reason: str) -> None:
         self.inconclusive.append(reason)
@@ -144,7 +147,7 @@ class Ctx:
     def to_partial(self) -> dict:
         return {"evaluations": self.evaluations, "distinct": sorted(self.distinct), "samples": self.samples,
                 "counters": self.counters, "sets": {k: sorted(map(str, v)) for k, v in self.sets.items()},
-                "violations": self.violations, "known_hits": self.known_hits,
+                "violations": self.violations, "n_violations": self.n_violations, "known_hits": self.known_hits,
                 "inconclusive": self.inconclusive, "wall_s": self.elapsed()}
 
     def absorb(self, p: dict) -> None:
@@ -158,6 +161,7 @@ class Ctx:
         for k, v in p["sets"].items():
             self.sets.setdefault(k, set()).update(v)
         self.violations.extend(p["violations"])
+        self.n_violations += p.get("n_violations", len(p["violations"]))
         for k, v in p["known_hits"].items():
             self.known_hits[k] = self.known_hits.get(k, 0) + v
         self.inconclusive.extend(p["inconclusive"])
@@ -197,7 +201,7 @@ def finish(ctx: Ctx, module, wall_s: float) -> int:
             "assurance is limited to the executions counted here (runtime monitoring, nothing is proved)",
         ],
         "wall_s": round(wall_s, 3),
-        "violations": len(ctx.violations),
+        "violations": ctx.n_violations,
         "verdict": "violated" if ctx.violations else ("inconclusive" if ctx.inconclusive else "held"),
         "tree": str(env.REPO),
     }
@@ -222,18 +226,20 @@ def finish(ctx: Ctx, module, wall_s: float) -> int:
         print(f"KNOWN-FINDING: property={ctx.pid} {mech}: {ctx.known_text.get((ctx.pid, mech), '')} (observed {cnt}x)")
     if ctx.violations:
         shown = set()
+        per_mech: dict[str, int] = {}
         for v in ctx.violations:
             key = (v["mechanism"], v["replay"])
-            if v["replay"] is None or key in shown:
+            if v["replay"] is None or key in shown or per_mech.get(v["mechanism"], 0) >= 2 or len(shown) >= 12:
                 continue
             shown.add(key)
+            per_mech[v["mechanism"]] = per_mech.get(v["mechanism"], 0) + 1
             print(f"VIOLATION property={ctx.pid} replay={v['replay']}")
             print(f"  mechanism={v['mechanism']}: {v['message'][:400]}")
         if not shown:
             v = ctx.violations[0]
             print(f"VIOLATION property={ctx.pid} replay={v['replay']}")
             print(f"  mechanism={v['mechanism']}: {v['message'][:400]}")
-        print(f"{ctx.pid}: VIOLATED — {len(ctx.violations)} violation(s), {ctx.evaluations} evaluations, "
+        print(f"{ctx.pid}: VIOLATED — {ctx.n_violations} violation(s), {ctx.evaluations} evaluations, "
               f"{len(ctx.distinct)} distinct non-trivial, {wall_s:.1f}s")
         return 1
     if ctx.inconclusive:
